@@ -321,6 +321,9 @@ fn run_prefix(sut: &mut Sut, prefix: &[PrefixOp], counters: &mut Counters) {
                     files.dedup();
                     files[pick % files.len()].clone()
                 };
+                if std::env::var("VERIF_DUMP_DIR").is_ok() {
+                    eprintln!("edit_revert file={rel} variant={variant}");
+                }
                 let edited = match variant % 3 {
                     0 => format!("// edited\n{content}"),
                     1 => format!("{content}\nfn verif_added_item(x: u8) -> u8 {{ x }}\n"),
@@ -665,11 +668,43 @@ fn replay_value(project: &ProjectRef, plan: &Plan, class: &str, detail: &str, le
     })
 }
 
-fn judge(reference: &Observables, out: &RunOut) -> Option<(String, String)> {
-    first_difference(reference, &out.obs).map(|(k, d)| {
+/// All differences of a run from the reference: (class, detail, specific signature items).
+/// Diagnostics-type observables are described by the `file:code` items of the entries that differ;
+/// all Sierra-derived observables (Sierra texts, annotations, registry, contract classes) form one
+/// group, described by the functions whose `withdraw_gas` count differs (or `other`).
+fn differences(reference: &Observables, out: &RunOut) -> Vec<(String, String, String)> {
+    let keys: BTreeSet<&String> = reference.keys().chain(out.obs.keys()).collect();
+    let mut v = vec![];
+    let mut sierra_group: Option<(String, String)> = None;
+    for k in keys {
+        let (x, y) = (reference.get(k), out.obs.get(k));
+        if x == y {
+            continue;
+        }
+        let one = |m: Option<&String>| -> Observables { m.map(|s| [(k.clone(), s.clone())].into_iter().collect()).unwrap_or_default() };
+        let detail = first_difference(&one(x), &one(y)).map(|(_, d)| d).unwrap_or_default();
         let class = if k == "PANIC" { "no-output".to_string() } else { format!("{k}-differs") };
-        (class, d)
-    })
+        if k.contains("diagnostics") {
+            let items = dbx::diag_diff_items(x.map(|s| s.as_str()).unwrap_or(""), y.map(|s| s.as_str()).unwrap_or("")).join(",");
+            v.push((class, detail, items));
+        } else if k == "PANIC" {
+            v.push((class, detail, String::new()));
+        } else if sierra_group.is_none() {
+            sierra_group = Some((class, detail));
+        }
+    }
+    if let Some((class, detail)) = sierra_group {
+        let empty = String::new();
+        let (a, b) = (reference.get("sierra_debug_names").unwrap_or(&empty), out.obs.get("sierra_debug_names").unwrap_or(&empty));
+        let items = dbx::sierra_withdraw_gas_items(a, b);
+        let items = if items.is_empty() { "other".to_string() } else { format!("withdraw_gas@{}", items.join(",withdraw_gas@")) };
+        v.push((format!("sierra-group/{class}"), detail, items));
+    }
+    v
+}
+
+fn judge(reference: &Observables, out: &RunOut) -> Option<(String, String)> {
+    differences(reference, out).into_iter().next().map(|(c, d, _)| (c, d))
 }
 
 pub fn replay(path: &Path, quiet: bool) -> i32 {
@@ -683,8 +718,18 @@ pub fn replay(path: &Path, quiet: bool) -> i32 {
     let mut c = Counters::default();
     let reference = execute(&project, &Plan::reference(), &mut c);
     let out = execute(&project, &plan, &mut c);
-    match judge(&reference.obs, &out) {
-        Some((class, detail)) if class == v["class"].as_str().unwrap_or("") => {
+    if let Ok(dir) = std::env::var("VERIF_DUMP_DIR") {
+        let _ = std::fs::create_dir_all(&dir);
+        for (k, v) in &reference.obs {
+            let _ = std::fs::write(format!("{dir}/reference.{k}.txt"), v);
+        }
+        for (k, v) in &out.obs {
+            let _ = std::fs::write(format!("{dir}/run.{k}.txt"), v);
+        }
+    }
+    let want = v["class"].as_str().unwrap_or("").to_string();
+    match differences(&reference.obs, &out).into_iter().find(|(c, _, _)| *c == want || c.ends_with(&format!("/{want}"))).map(|(c, d, _)| (c, d)) {
+        Some((class, detail)) => {
             if !quiet {
                 println!("reproduced {class}: {detail}");
                 println!("VIOLATION property=C12 replay={}", path.display());
@@ -735,6 +780,8 @@ pub fn run_level(opts: &Opts) -> LevelSummary {
     });
     let mut sum = LevelSummary { evaluations: 0, counters: Counters::default(), raw_sigs: BTreeSet::new(), attr_sigs: BTreeSet::new(), runs_with_parallel_queries: 0, violations: 0, samples: vec![], wall_s: 0.0, exit: simcore::EXIT_OK, log: vec![], queries: 0, tasks: 0 };
     let mut findings: Vec<(usize, Plan, String, String)> = vec![];
+    let known = KnownFindings::load();
+    let mut known_hits: BTreeSet<String> = BTreeSet::new();
     for (i, (a, b)) in refs.iter().enumerate() {
         sum.evaluations += 2;
         sum.raw_sigs.insert((corpus[i].0.name.clone(), a.raw_sig));
@@ -745,6 +792,41 @@ pub fn run_level(opts: &Opts) -> LevelSummary {
         }
         if a.obs.contains_key("PANIC") {
             println!("note: reference run of {} panics: {}", corpus[i].0.name, a.obs["PANIC"]);
+        }
+    }
+    // Listed findings are re-executed from their committed replay files (level 1 only): while
+    // one still reproduces and is fully explained by the list, its KNOWN-FINDING line is printed; a
+    // difference the list does not explain is reported like any other violation.
+    if !level2 {
+        let mut seen = BTreeSet::new();
+        for f in known.findings.iter().filter(|f| f.property == "C12") {
+            let Some(rp) = &f.replay else { continue };
+            if !seen.insert(rp.clone()) {
+                continue;
+            }
+            let Ok(text) = std::fs::read_to_string(simcore::verif_root().join(rp)) else { continue };
+            let Ok(v) = serde_json::from_str::<Value>(&text) else { continue };
+            if v["level"].as_u64() != Some(1) {
+                continue;
+            }
+            let Ok(plan) = serde_json::from_value::<Plan>(v["plan"].clone()) else { continue };
+            let Some(i) = corpus.iter().position(|(p, _)| p.name == v["project"].as_str().unwrap_or("")) else { continue };
+            let mut c = Counters::default();
+            let out = execute(&corpus[i].0, &plan, &mut c);
+            sum.evaluations += 1;
+            let diffs = differences(&refs[i].0.obs, &out);
+            if diffs.is_empty() {
+                println!("note: listed finding {rp} no longer reproduces");
+                continue;
+            }
+            let unexplained: Vec<_> = diffs.iter().filter(|(class, _, items)| known.lookup("C12", &format!("{class}|{}|{items}", corpus[i].0.name)).is_none()).collect();
+            if unexplained.is_empty() {
+                known_hits.insert(format!("KNOWN-FINDING: property=C12 {}", f.what));
+                sum.counters.inc("listed_findings_reproduced");
+            } else {
+                let (class, d, items) = unexplained[0];
+                findings.push((i, plan, class.clone(), format!("{d} [differing: {items}]")));
+            }
         }
     }
     let mut units: Vec<(usize, u64)> = vec![];
@@ -786,8 +868,20 @@ pub fn run_level(opts: &Opts) -> LevelSummary {
             if sum.samples.len() < 3 && !plan.prefix.is_empty() {
                 sum.samples.push(json!({"project": corpus[i].0.name, "plan": plan, "tasks_run": out.tasks_run, "queries_executed": out.queries_executed, "raw_id_signature": hex64(out.raw_sig)}));
             }
-            if let Some((class, d)) = judge(&refs[i].0.obs, &out) {
-                findings.push((i, plan, class, d));
+            let diffs = differences(&refs[i].0.obs, &out);
+            let unexplained: Vec<_> = diffs
+                .iter()
+                .filter(|(class, _, items)| known.lookup("C12", &format!("{class}|{}|{items}", corpus[i].0.name)).is_none())
+                .collect();
+            if !diffs.is_empty() && unexplained.is_empty() {
+                for (class, _, items) in &diffs {
+                    let k = known.lookup("C12", &format!("{class}|{}|{items}", corpus[i].0.name)).unwrap();
+                    let _ = (class, items);
+                    known_hits.insert(format!("KNOWN-FINDING: property=C12 {}", k.what));
+                }
+                sum.counters.inc("runs_explained_by_known_findings");
+            } else if let Some((class, d, items)) = unexplained.first() {
+                findings.push((i, plan, format!("{class}"), format!("{d} [differing diagnostics: {items}]")));
             }
         }
         batch += 1;
@@ -796,8 +890,10 @@ pub fn run_level(opts: &Opts) -> LevelSummary {
         }
     }
 
+    for k in &known_hits {
+        println!("{k}");
+    }
     // Report findings: minimise the prefix and the plan, write replay, confirm in a fresh process.
-    let known = KnownFindings::load();
     let replay_dir = simcore::verif_root().join("replays/C12");
     let mut reported = BTreeSet::new();
     for (i, plan, class, detail) in findings {
@@ -806,14 +902,12 @@ pub fn run_level(opts: &Opts) -> LevelSummary {
         if !reported.insert(sig.clone()) || reported.len() > 6 {
             continue;
         }
-        if let Some(k) = known.lookup("C12", &sig) {
-            println!("KNOWN-FINDING: property=C12 {} ({})", k.what, k.signature);
-            continue;
-        }
         let fails = |p: &Plan| -> bool {
             let mut c = Counters::default();
             let out = execute(project, p, &mut c);
-            matches!(judge(&refs[i].0.obs, &out), Some((cl, _)) if class.ends_with(&cl))
+            differences(&refs[i].0.obs, &out).iter().any(|(cl, _, items)| {
+                class.ends_with(cl.as_str()) && known.lookup("C12", &format!("{cl}|{}|{items}", project.name)).is_none()
+            })
         };
         let mut min = plan.clone();
         if !min.prefix.is_empty() {
